@@ -283,7 +283,16 @@ def custom_engine_stage(ctx: Ctx):
         for d in ("duckdb", "sqlite"):
             if d == base:
                 continue
-            got_sql = emitted_custom(kind, base, sql, d)
+            try:
+                got_sql = emitted_custom(kind, base, sql, d)
+            except Exception as e:
+                if (d, base, "raises") not in reported:
+                    reported.add((d, base, "raises"))
+                    ctx.violation(f"custom {kind} declared in {base} cannot be created for {d}: {e!r}"[:300],
+                                  {"case": {"creator": kind, "declared_dialect": base, "target_dialect": d, "sql": sql}, "implementation": repr(e)[:300],
+                                   "specification": f"translated from {base} to {d}"},
+                                  {"dialect": d, "custom_sql": True, "creator": kind, "declared_dialect": base, "raises": True})
+                continue
             for rows, tag in ((CUSTOM_ROWS, None), (NULL_AMT_ROWS if "amt" in sql else [], "null_numeric_argument")):
                 if not rows:
                     continue
